@@ -225,8 +225,64 @@ fn core_case(sub: &str, id: u64, r: &mut Report) {
     r.distinct(hkey(&[&"cores", &seed[..].to_vec(), &gens]));
 }
 
+/// structured states snapshotted right after seeding (enumerated, never thinned:
+/// it is small, and it is what a word-size or byte-order slip in a hand-written
+/// (de)serializer trips over): id = type * 64 + pattern
+fn structured_case<S: Spec>(sub: &str, id: u64, r: &mut Report) {
+    let pat = (id % 64) as usize;
+    let n = S::SEED_LEN;
+    let mut p = Prng::new(id ^ 0x57a7e);
+    let mut seed = p.bytes(n);
+    let lanes: Vec<usize> = match pat {
+        0 => vec![0, 1, 2, 3],
+        1 => vec![4, 5, 6, 7],
+        2 => vec![0],
+        3 => vec![7],
+        4 => vec![0, 2, 4, 6],
+        5 => vec![1, 2, 3, 4, 5, 6, 7],
+        6 | 7 | 8 | 9 => vec![],
+        _ => return,
+    };
+    for w in seed.chunks_mut(8) { for &l in &lanes { if l < w.len() { w[l] = 0; } } }
+    match pat {
+        6 => seed[..n / 2].iter_mut().for_each(|b| *b = 0),
+        7 => seed[n / 2..].iter_mut().for_each(|b| *b = 0),
+        8 => { seed.iter_mut().for_each(|b| *b = 0); seed[n - 1] = 0x80; }
+        9 => { seed.iter_mut().for_each(|b| *b = 0xff); }
+        _ => {}
+    }
+    if seed.iter().all(|&b| b == 0) { return; }
+    let orig = S::from_seed(&seed);
+    for (fmt, res) in [("bincode", S::from_bincode(&S::bincode(&orig).unwrap()).unwrap()), ("json", S::from_json(&S::json(&orig).unwrap()).unwrap())] {
+        r.eval();
+        match res {
+            Ok(mut g) => {
+                let mut o = orig.clone();
+                for k in 0..40 {
+                    let op = if k % 3 == 0 { Op::U64 } else { Op::U32 };
+                    if apply_ext::<S>(&mut g, &op) != apply_ext::<S>(&mut o, &op) {
+                        r.violation(format!("{}:restored_diverges:{}", S::NAME, fmt), sub, id, json!({"type": S::NAME, "seed": hex(&seed), "op_index": k}));
+                        return;
+                    }
+                }
+            }
+            Err(e) => {
+                r.violation(format!("{}:deserialize_failed:{}", S::NAME, fmt), sub, id, json!({"type": S::NAME, "seed": hex(&seed), "error": e,
+                    "note": "the generator's own snapshot, taken right after from_seed with a structured seed, is refused"}));
+                return;
+            }
+        }
+    }
+    r.cov("structured_snapshots");
+    r.distinct(hkey(&[&"structured", &S::NAME, &seed]));
+}
+
 fn case(sub: &str, id: u64, r: &mut Report) {
     match sub {
+        "structured" => {
+            let ti = (id / 64) as usize;
+            with_spec!(ti, S => { if S::HAS_SERDE { structured_case::<S>(sub, id, r) } });
+        }
         "cores" => core_case(sub, id, r),
         // forced snapshot index: id = type*4096 + index*2 + half
         "index" => {
@@ -268,9 +324,18 @@ pub fn run(ctx: &Ctx, only: Option<&Only>) -> Report {
             }
         }
     });
+    let structured: Vec<u64> = SERDE_TYPES.iter().flat_map(|&ti| (0..10u64).map(move |k| ti as u64 * 64 + k)).collect();
+    total.merge(par(ctx.threads, |t, r| {
+        for (k, &id) in structured.iter().enumerate() {
+            if k % ctx.threads == t {
+                run_case("structured", id, r, &|id, r: &mut Report| case("structured", id, r));
+            }
+        }
+    }));
     let secs = if ctx.tier_thorough { ctx.budget_s } else { 0.0 };
     total.merge(drive(ctx, "snapshot", 20_000, secs * 0.9, |id, r| case("snapshot", id, r)));
     total.merge(drive(ctx, "cores", 1_000, secs * 0.1, |id, r| case("cores", id, r)));
+    total.floor("structured_snapshots", 100);
     total.floor("cores:IsaacCore", 100);
     total.floor("cores:Isaac64Core", 100);
     for &ti in &SERDE_TYPES {
